@@ -49,6 +49,11 @@ SPEC = {
             'world is in the cycle\'s report; class 2 = F13e masks this clause only) and nothing the destination shows as executed is in any report of the cycle. In a tenth of the '
             'cycles (class readerr) the destination reader fails, on every oracle, for all but the last executed-range query of a chain: no report may then hold an executed message '
             '(catches seeded C09-6 through the copy of this part in C09). The harness seed is hashed (neighbouring splitmix seeds give shifted copies of one stream). '
+            'The home chain configuration moves while the plugins live (a third of the cycles, before the cycle or between two of its rounds): f of a source chain or of the '
+            'destination raised / lowered by one, a source chain added with its f and a committed report, a source chain removed (between cycles only); every round is judged against '
+            'exec_round with THAT round\'s fChain. Boundary classes: fraise (f(dest) raised before the cycle, exactly OLD f+1 oracles collude on a report the honest readers do not see: it '
+            'must not be used) and flower (every f of 2 lowered by one, exactly NEW f+1 = 2 oracles take part: the eligible messages must be reported); an added chain must not make later '
+            'Outcomes fail (liveness ground truth). Catches seeded C07-8 (fChain memoised in the Plugin) with concrete cycles of all three kinds. '
             'Probes, not part of the check: VERIF_XS_PROBE=poison / poison1 (F75) and split (F76) replay C09_cycle_liveness_poisoned_unfixed_refuted / C09_conflicting_versions_unfixed_refuted on the real plugins (stall on the unpatched tree, normal cycles on the repaired one). non-trivial = the Filter round\'s report holds a message',
     'trusted': ['item identity = the implementation\'s id function (sha3 of "%v"; TokenDataHash): the harness interns the same '
                 'rendering, the other item fields are functions of it',
